@@ -29,7 +29,10 @@ the value loop - the real loop body is executed once per reachable state with ev
                                                      one zero-padded
     encode_bitpacked.cursor_is_whole_groups[n%8==0] / [partial last group]   cursor == base + groups*width (the run the header announces)
     encode_bitpacked.frame                          nothing outside [old cursor, new cursor) is modified; .values_not_written
-  safety (C12): view index, loads, stores (NumpyIO.write_byte is guarded), shift amounts, header value fits int32.
+  safety (C12): view index and load of values[counter], shift amounts, header_fits_buffer / closure.state(b).bytes_of_this_value_fit /
+    write_byte_inside_buffer (no byte is dropped by the guarded NumpyIO.write_byte under the capacity precondition), header value fits int32.
+  Every query is quantifier-free: universally quantified facts (memory invariant, callee frames) are kept as instantiable facts on the path
+  and instantiated at the Skolem indices of the goal.
 
 encode_unsigned_varint.bytes_are_uleb[len=k]   callee contract used as a CUT inside encode_bitpacked: proved on the real source per length.
 encode_rle_bp(data, width, o, withlength)      encode_bitpacked by its contract (cut: advances by K bytes, writes only those):
@@ -38,6 +41,8 @@ write_bitpacked1(file_obj, count, o)           PLAIN boolean packing: output bit
     posed twice: [order=lsb] is the Parquet order (and the inverse of read_bitpacked1), [order=msb] the np.packbits order its comment names.
 writer.encode_dict (Python)                     block == width byte ++ ULEB128((ceil(n/8) << 1) | 1) ++ values.tobytes(); 10-byte scratch
     capacity; encode_dict.run_is_whole_groups: the payload has the groups*width bytes the header announces.
+writer.make_definitions, branch with nulls (Python)   block == [le32(len)] ++ ULEB128((G << 1) | 1) ++ packed bits (G bytes, from numpy);
+    make_definitions[nulls][v1|v2].header_value_is_spec / .block_is_spec / .run_covers_all_levels / scratch capacity
 Round trip (C11, C01), stated over the byte-level spec shared with the decoder contracts (kernels.spec_bitpacked_value is the function
 `read_bitpacked[w].values` is proved against):
     bitpacked.roundtrip[w]        stream == SPECBIT stream of x  =>  spec_bitpacked_value(stream, w, j) == x[j]  for every j < n
@@ -73,6 +78,9 @@ ASSUMED = [
     "write_bitpacked1: the input is a numpy bool / int8 array of 0 and 1 (one byte per value)",
     "writer.encode_dict: data.values.tobytes() is the little-endian image of len(data) items of dtype.itemsize bytes (numpy); "
     "dtype.itemsize in {1, 2, 4}; len(data) < 2**31",
+    "writer.make_definitions (branch with nulls): encode_plain of the boolean not-null mask (np.pad(x, (0, 8 - len % 8)) + np.packbits on the "
+    "bit-reversed groups) returns len // 8 + 1 bytes holding the mask LSB first - numpy, out of reach of the generator: only the framing "
+    "around those bytes is under contract",
     "composition of a round trip from the encoder post, the lemma bitpacked.roundtrip[w] and the decoder contract read_bitpacked[w].values "
     "is by transitivity over the shared specification function (argued, not mechanised as one run)",
 ]
@@ -1002,6 +1010,115 @@ def k_encode_dict(timeout):
     return res
 
 
+
+# =================================================================================================
+# writer.make_definitions, the branch WITH nulls: the other place where a bit-packed run is framed by hand (the no-null branch is
+# contracts/c11_deflevels.py).  The packed booleans themselves come from numpy (np.pad / np.packbits): opaque bytes of length G here.
+# =================================================================================================
+def k_make_definitions_nulls(timeout):
+    from vc.front_py import parse_module
+    from .filemodel import Bts, concat, eq_goal, le32, h_struct_pack
+    res = EResults()
+    wfuncs, _, _ = parse_module("fastparquet/writer.py")
+    n, G = z3.Int("n_rows"), z3.Int("packed_len")
+    OUT = z3.Function("packed_notnull", z3.IntSort(), z3.BitVecSort(8))
+    packed = Bts(G, lambda i: OUT(i))
+
+    class Data:
+        tracked = False
+
+        def len(self, eng, p):
+            return PyI(n)
+
+        def call_method(self, eng, p, name, args, kw, node):
+            if name == "notnull":
+                return [(p, Opaque("dnn"))]
+            raise Unsupported("data." + name)
+
+        def getitem(self, eng, p, i, node):
+            return Opaque("data[dnn]")
+
+    def h_numpyio(eng, p, args, kw, node):
+        size = args[0].h.size if isinstance(args[0], Custom) and hasattr(args[0].h, "size") else None
+        if size is None:
+            raise Unsupported("NumpyIO over something that is not the scratch buffer")
+        nb = CI(z3.Int2BV(size, 32), 32, False, size, (0, 2 ** 32 - 1))
+        zero = CI(z3.BitVecVal(0, 32), 32, False, z3.IntVal(0), (0, 0))
+        return [(p, cy.new_io(p, "temp", loc=zero, nbytes=nb))]
+
+    class Buf:
+        tracked = False
+
+        def __init__(self, size):
+            self.size = size
+    for version in (1, 2):
+        tag = f"[v{version}]"
+        handlers = {"np.empty": lambda e, p, a, k, nd: [(p, Custom(Buf(e.as_int(a[0], p))))], "NumpyIO": h_numpyio,
+                    "cencoding.encode_unsigned_varint": h_varint_contract, "struct.pack": h_struct_pack,
+                    "encode_plain": lambda e, p, a, k, nd: [(p, BytesV(packed))],
+                    "bytes": lambda e, p, a, k, nd: [(p, BytesV(_view_bts(p, a[0])))],
+                    "bytes+": lambda e, p, a, b, nd: BytesV(concat(_view_bts(p, a), _view_bts(p, b)))}
+        eng = engine(handlers=handlers, extra_funcs={"make_definitions": wfuncs["make_definitions"]}, opaque_calls=True)
+        p = Path()
+        # requires: fewer than 2**31 rows; numpy contract of the boolean packing (ASSUMED): np.pad(x, (0, 8 - len % 8)) + np.packbits gives
+        # len // 8 + 1 bytes
+        p.pc += [n >= 0, n < 2 ** 31, G == n / 8 + 1]
+        mf = lambda m: {"n_rows": mv(m, n), "packed_len": mv(m, G)}
+        try:
+            outs = eng.run("make_definitions", p, [Custom(Data()), PyB(False), PyI(version, lit=True)])
+        except Unsupported as ex:
+            res.addk(f"make_definitions[nulls]{tag}.out_of_reach", "functional", UNKNOWN, None, 0.0, "engine", str(ex))
+            continue
+        for ob in eng.oblig:
+            ob.name = ob.name.replace("make_definitions.header_fits_buffer", "make_definitions.scratch_capacity.header_fits_buffer")
+        res.take_engine(eng, f"make_definitions[nulls]{tag}.", timeout, mf)
+        hdr = 2 * G + 1
+        L = uleb_len_int(hdr)
+        hb = z3.Int2BV(hdr, 64)
+
+        def uleb_at(i, hb=hb, L=L):
+            e = z3.BitVecVal(0, 8)
+            for u in reversed(range(10)):
+                low7 = (z3.Extract(7, 0, z3.LShR(hb, 7 * u)) & 0x7F) if 7 * u < 64 else z3.BitVecVal(0, 8)
+                e = z3.If(i == u, z3.If(u < L - 1, low7 | 0x80, low7), e)
+            return e
+        run = concat(Bts(L, uleb_at), packed)
+        spec = concat(le32(run.n), run) if version == 1 else run
+        k = z3.Int("k_skolem")
+        nret = 0
+        for q in outs:
+            if q.ctl[0] != "ret":
+                continue
+            nret += 1
+            blk = q.ctl[1].items[0] if isinstance(q.ctl[1], Tup) else None
+            if not isinstance(blk, BytesV):
+                res.addk(f"make_definitions[nulls]{tag}.block_is_spec", "functional", UNKNOWN, None, 0.0, "engine", "the block is not a byte string")
+                continue
+            calls = q.ghost.get("varint_calls", [])
+            if len(calls) == 1:
+                at, xi, Lc, _, _ = calls[0]
+                st, m, secs = solve(lia_part(q.pc) + [z3.Not(z3.And(at == 0, xi == hdr))], timeout)
+                res.addk(f"make_definitions[nulls]{tag}.header_value_is_spec", "functional", st,
+                         dict(mf(m), header=mv(m, xi), spec_header=mv(m, hdr)) if m is not None else None, secs, "z3",
+                         "one bit-packed run header at the start of the scratch buffer: (groups << 1) | 1 with groups == number of packed "
+                         "bytes (width 1: one byte per group of 8 levels)")
+            else:
+                res.addk(f"make_definitions[nulls]{tag}.header_value_is_spec", "functional", REFUTED, {"varint_calls": len(calls)}, 0.0, "engine",
+                         "exactly one run header is written")
+            st, m, secs = solve(list(q.pc) + [z3.Not(eq_goal(blk.seq, spec, k))], timeout)
+            res.addk(f"make_definitions[nulls]{tag}.block_is_spec", "functional", st,
+                     dict(mf(m), block_len=mv(m, blk.seq.n), spec_len=mv(m, spec.n), differs_at=mv(m, k)) if m is not None else None, secs, "z3",
+                     "definition block == " + ("le32(byte length of the run) ++ " if version == 1 else "") +
+                     "ULEB128((groups << 1) | 1) ++ the packed not-null bits, nothing else")
+            st, m, secs = solve(lia_part(q.pc) + [z3.Not(z3.And(8 * G >= n, cy.loc(q, "temp") == L))], timeout)
+            res.addk(f"make_definitions[nulls]{tag}.run_covers_all_levels", "functional", st, mf(m) if m is not None else None, secs, "z3",
+                     "the announced groups hold at least the n definition levels of the page, and the header was not truncated by the scratch "
+                     "buffer (cursor == uleb_len(header))")
+        if nret == 0:
+            res.addk(f"make_definitions[nulls]{tag}.block_is_spec", "functional", UNKNOWN, None, 0.0, "engine", "no returning path")
+    return res
+
+
 # =================================================================================================
 # round-trip lemmas over the byte-level specification shared with the decoder contracts
 # =================================================================================================
@@ -1099,7 +1216,7 @@ FUNCS_UNDER_CONTRACT = ["encode_bitpacked", "encode_rle_bp", "write_bitpacked1",
 def tasks(tier="quick"):
     timeout = 10000 if tier == "quick" else 60000
     ts = [("bp", w, timeout) for w in sorted(range(0, 33), key=lambda w: (-(8 // __import__("math").gcd(w, 8) if w else 1), w))]
-    ts += [("wbp1", None, timeout), ("rle_bp", None, timeout), ("varint", None, timeout), ("dict", None, timeout), ("rt_misc", None, timeout)]
+    ts += [("wbp1", None, timeout), ("rle_bp", None, timeout), ("varint", None, timeout), ("dict", None, timeout), ("defnulls", None, timeout), ("rt_misc", None, timeout)]
     ts += [("rt", w, timeout) for w in range(1, 33)]
     return ts
 
@@ -1115,7 +1232,7 @@ def _task(t):
             res = roundtrip_bitpacked(arg, timeout)
         else:
             res = {"wbp1": k_write_bitpacked1, "rle_bp": k_encode_rle_bp, "varint": varint_bytes_lemma, "dict": k_encode_dict,
-                   "rt_misc": roundtrip_misc}[kind](timeout)
+                   "rt_misc": roundtrip_misc, "defnulls": k_make_definitions_nulls}[kind](timeout)
         return (label, res.order, res.d, res.kind, None, time.time() - t0)
     except Unsupported as ex:          # the current source is outside the engine's subset: out of reach, undecided
         nm = f"encoders.{label}.out_of_reach"
@@ -1168,6 +1285,8 @@ def replay(name, model, repo):
     import re
     head = "REPO = %r\n" % repo + REPLAY_SRC
     m = re.match(r"encode_bitpacked\[w=(\d+)\]\.(.*)", name)
+    if m and ("_in_range@" in m.group(2) or "_in_region@" in m.group(2) or "fit" in m.group(2) or "inside_buffer" in m.group(2)):
+        return False, "no native replay for a safety obligation of encode_bitpacked (an out-of-region access has no observable verdict)", None
     if m:
         w, what = int(m.group(1)), m.group(2)
         if "cursor_is_whole_groups" in what:
@@ -1184,6 +1303,8 @@ print(json.dumps(dict(VIOLATED=got != want, detail=dict(width={w}, values=[int(v
       spec=want.hex(), spec_cursor=len(want), bytes_after_cursor_untouched=after.hex()))))
 '''
         return _sub(prog)
+    if name.startswith("write_bitpacked1.") and not re.search(r"values_lsb_first|\[lsb\]|input_cursor", name):
+        return False, "no native replay registered for this obligation", None
     if name.startswith("write_bitpacked1."):
         prog = head + '''
 vals = np.array([1, 0, 0, 1, 1, 0, 1, 0, 1, 0, 0], dtype="int8")
